@@ -84,7 +84,13 @@ class FileScanHelper:
         if use_standard_in:
             assert not in_fix_mode, "Standard-in cannot be used with fix mode."
             POGGER.debug("Scanning from: (stdin)")
+            if verif_probe.ENABLED:
+                verif_probe.emit("file_begin", file="(stdin)", fix=False)
             self.__scan_from_stdin(args, string_to_scan)
+            if verif_probe.ENABLED:
+                verif_probe.emit(
+                    "file_end", file="(stdin)", fix=False, ok=True, fixed=False
+                )
 
         else:
             POGGER.debug("Scanning from: $", files_to_scan)
